@@ -709,7 +709,11 @@ def selfcheck():
 
 def plan(tier, seed, jobs):
     jobs = max(1, jobs)
-    total = 6000 if tier == "quick" else 400000
+    total = 6000 if tier == "quick" else 200000
+    try:  # development knob: VERIF_C10_SCALE=0.1 runs a tenth of the tier
+        total = max(200, int(total * float(os.environ.get("VERIF_C10_SCALE", "1"))))
+    except ValueError:
+        pass
     nsh = jobs if tier == "quick" else jobs * 4
     shards = [{"kind": "mutants", "seed": seed * 1000 + k, "n": max(50, total // nsh)}
               for k in range(nsh)]
